@@ -207,6 +207,27 @@ def main(tier: str, seed: int) -> int:
         traces.append(tr)
         chk.add_case({"kind": kind, "up": up, "down": down, "acts": tr["stimulus"]["actions"]},
                      nontrivial=any(a in ("shutdown", "reset") for a in tr["stimulus"]["actions"]))
+    # every (power state, power request) edge of the model for every duration pair, on rotating node types:
+    # a path to the state (shutdown / ticks / startup), the request, a probe frame, a tick
+    def step(a, p=""):
+        return {"action": a, "params": p, "state": {}}
+
+    k = 0
+    for up in range(4):
+        for down in range(4):
+            paths = {"ON": [], "SD": [step("MPower", '"shutdown"')],
+                     "OFF": [step("MPower", '"shutdown"')] + [step("MTick")] * (down + 1),
+                     "BOOT": [step("MPower", '"shutdown"')] + [step("MTick")] * (down + 1) + [step("MPower", '"startup"')]}
+            for target, path in paths.items():
+                for kind in ("shutdown", "startup", "reset"):
+                    beh = [{"action": "Init", "params": "", "state": {"upDur": up, "downDur": down}}] + path + [
+                        step("MPower", f'"{kind}"'), step("MFrame"), step("MOther"), step("MTick"), step("MEmit"), step("MTick")]
+                    kindn = KINDS[k % len(KINDS)]
+                    k += 1
+                    tr = run_behaviour(cnt, kindn, up, down, beh, rng)
+                    tr["meta"]["directed"] = f"{target}/{kind}"
+                    traces.append(tr)
+                    chk.add_case({"kind": kindn, "up": up, "down": down, "edge": f"{target}/{kind}"})
     res = tlc.validate("NodePowerTrace", traces)
     common.judge_traces(chk, "NodePower", traces, res, sig_fn, selftest="NodePowerTrace")
     for tr in traces[:2]:
